@@ -797,7 +797,9 @@ impl<'a, 'b> G<'a, 'b> {
                 0 => s.push_str(self.c.choose(&[
                     "text", " spaced out ", "\n  line\n  two\n", "a&amp;b", "&nbsp;", " ",
                     // lone carriage returns, also as the very last character of the run
-                    "cr\r", "\r", "a\r\n b\r", "&#13;", "x&#10;",
+                    // (none of these may clean to the empty string: the feature labels count
+                    // every text piece as an effective child)
+                    "cr\r", "a\r\n b\r", "x&#13;", "x&#10;",
                 ])),
                 1 => {
                     let e = match self.c.pick(6) {
